@@ -109,6 +109,19 @@ void run_case(char *rest)
 			printf(" final=%s", last);
 			free(data);
 			break; }
+		case 'V': case 'W': {
+			/* json_tokener_parse_verbose / json_tokener_parse on the C string */
+			size_t n; unsigned char *b = unhex(tokp + 1, &n);
+			unsigned char *z = (unsigned char *)malloc(n + 1);
+			struct json_object *o; enum json_tokener_error e = json_tokener_success;
+			memcpy(z, b, n); z[n] = 0;
+			if (tokp[0] == 'V') { o = json_tokener_parse_verbose((char *)z, &e); printf("%s ", err_name(e)); }
+			else { o = json_tokener_parse((char *)z); printf("parse "); }
+			/* NULL is both "no value" and the JSON null value: tell them apart by the status where there is one */
+			if (o || (tokp[0] == 'V' && e == json_tokener_success)) jv_dump(o); else putchar('-');
+			if (o) json_object_put(o);
+			free(z); free(b);
+			break; }
 		case 'D': {
 			/* json_object_from_fd_ex(fd, depth) on the given bytes through a temporary file */
 			char *comma = strchr(tokp, ',');
